@@ -49,7 +49,24 @@ Models ==
                    Nd("Squeeze", <<>>, <<"Yh", "ax">>, <<"f">>),
                    Nd("LinearRegressor", <<AFs("coefficients", <<1, -2>>), AFs("intercepts", <<3>>)>>, <<"f">>, <<"p">>)>>,
        inputs |-> <<InD("x", <<DSym, DFix(1), DFix(2)>>)>>, outputs |-> <<"Yh", "f">>,
-       inits |-> [w |-> RW(1, 2, 2, 1), r |-> RW(1, 2, 2, 2), h0 |-> T("f32", <<1, 1, 2>>, <<2, 0>>), ax |-> T("i64", <<1>>, <<0>>)]] ]
+       inits |-> [w |-> RW(1, 2, 2, 1), r |-> RW(1, 2, 2, 2), h0 |-> T("f32", <<1, 1, 2>>, <<2, 0>>), ax |-> T("i64", <<1>>, <<0>>)]],
+    \* (the next four are members of the C02 model family, MC_C02.tla: weights that need no stretching, scaled operands, a vector weight)
+    gemm_row_bias |->
+      [nodes |-> <<Nd("Gemm", <<>>, <<"x", "w", "c13">>, <<"g">>), Nd("Gemm", <<AF("alpha", Fin(2)), AF("beta", Fin(3))>>, <<"x", "w", "c13">>, <<"h">>)>>,
+       inputs |-> <<InD("x", <<DSym, DFix(3)>>)>>, outputs |-> <<"g", "h">>,
+       inits |-> [w |-> T("f32", <<3, 3>>, <<1, 0, -1, 2, 1, 0, 0, 3, 1>>), c13 |-> T("f32", <<1, 3>>, <<-1, 2, -3>>)]],
+    matmul_vector |->
+      [nodes |-> <<Nd("MatMul", <<>>, <<"x", "v">>, <<"y">>), Nd("MatMul", <<>>, <<"v", "w">>, <<"z">>), Nd("Add", <<>>, <<"v", "v">>, <<"vv">>)>>,
+       inputs |-> <<InD("x", <<DSym, DFix(2)>>)>>, outputs |-> <<"y", "z", "vv">>,
+       inits |-> [v |-> T("f32", <<2>>, <<3, -1>>), w |-> T("f32", <<2, 3>>, <<1, 0, -1, 2, 1, 0>>)]],
+    same_shape_weights |->
+      [nodes |-> <<Nd("Add", <<>>, <<"x", "v">>, <<"a">>), Nd("Mul", <<>>, <<"v", "x">>, <<"m">>), Nd("Relu", <<>>, <<"v">>, <<"r">>)>>,
+       inputs |-> <<InD("x", <<DSym, DFix(3)>>)>>, outputs |-> <<"a", "m", "r">>,
+       inits |-> [v |-> T("f32", <<1, 3>>, <<-1, 2, -3>>)]],
+    expand_concat_add |->
+      [nodes |-> <<Nd("Expand", <<>>, <<"x", "shp">>, <<"e">>), Nd("Concat", <<AI("axis", 0)>>, <<"x">>, <<"c">>), Nd("Add", <<>>, <<"c", "v">>, <<"s">>)>>,
+       inputs |-> <<InD("x", <<DSym, DFix(3)>>)>>, outputs |-> <<"e", "c", "s">>,
+       inits |-> [shp |-> T("i64", <<3>>, <<2, 1, 3>>), v |-> T("f32", <<3>>, <<100, 200, 300>>)]] ]
 G == Models[mid]
 XShape(g, batch) == LET d == g.inputs[1].dims IN [i \in 1..Len(d) |-> IF d[i].kind = "fixed" THEN d[i].size ELSE batch]
 \* Run r has its own input tensor (other values, other batch size)
